@@ -305,6 +305,19 @@ def check_dependencies(graph, ex, case, suite_key=None):
                         yield Violation({"oracle": "spurious-parent"},
                                         f"{entry['name']} declares get={declared!r} for {obj['long_suffix']} but is attached to {parent_name}", case)
             if entry["clones"]:
+                # branch-specific state names: the clones of one source must not produce the same state
+                produced = {}
+                for clone_name in entry["clones"]:
+                    clone = nodes.get(clone_name)
+                    if clone is None:
+                        continue
+                    for cobj in clone["objects"]:
+                        if cobj["long_suffix"] == obj["long_suffix"] and cobj["set_state"]:
+                            produced.setdefault(cobj["set_state"], []).append(clone_name)
+                for state, owners in produced.items():
+                    if len(owners) > 1:
+                        yield Violation({"oracle": "clones-produce-same-state"},
+                                        f"clones {[o[:60] for o in owners]} of {entry['name'][:80]} all set {state!r} of {obj['long_suffix']}", case)
                 expected_clones = len(producers)
                 if len(entry["clones"]) != expected_clones and expected_clones > 1:
                     yield Violation({"oracle": "clone-count"},
